@@ -565,6 +565,7 @@ fn gen_value(rng: &mut Rng, depth: u32, escapes: bool, temporals: bool) -> G {
 }
 
 fn eval_feel(text: &str) -> Option<Value> {
+  crate::util::note_case(text);
   let s = Scope::default();
   let n = dmntk_feel_parser::parse_expression(&s, text, false).ok()?;
   dmntk_feel_evaluator::evaluate(&s, &n).ok()
